@@ -13,7 +13,7 @@ import ast
 
 from ..index import AnchorMissing, Unrecognised
 from ..cfg import CFG
-from ..astutil import u, body_walk, local_env, func_calls, walk_local, single_return_expr, inline_locals
+from ..astutil import linear_body, u, body_walk, local_env, func_calls, walk_local, single_return_expr, inline_locals
 from ..pend import edge_facts
 from .. import sym, schema
 
@@ -68,7 +68,7 @@ def r1_writer_exhaustive(ctx):
     env = local_env(fd.node)
     d = fd.params[1]
     ok = "data_dict" in env and sym.canon(env["data_dict"]) == sym.canon(sym.parse_expr(f"[(field.type, getattr({d}, field.name)) for field in dataclasses.fields({d})]"))
-    rets = [n_ for n_ in fd.node.body if isinstance(n_, ast.Return)]
+    rets = [n_ for n_ in linear_body(fd.node) if isinstance(n_, ast.Return)]
     ok = ok and bool(rets) and sym.canon(rets[-1].value) == "dump_csv(data_dict, cls.DELIMITER)"
     ctx.ob(fd.where, "columns are written in the dataclass field order, each with its declared type, separated by the class delimiter", ok, "", key="C03-R1|from_data")
     dc_ = ix.func("bionumpy.io.dump_csv", "dump_csv")
